@@ -12,7 +12,8 @@ cd lean || exit 1
 TARGETS=""
 for id in $IDS; do
   lc=$(echo "$id" | tr 'A-Z' 'a-z')
-  TARGETS="$TARGETS Tahoe.Props.$id drv_$lc"
+  TARGETS="$TARGETS Tahoe.Props.$id"
+  [ -f "Drv/$id.lean" ] && TARGETS="$TARGETS drv_$lc"   # a property without its own driver reuses another one's
 done
 if lake build $TARGETS; then
   echo "setup ok: built$TARGETS"
@@ -22,7 +23,8 @@ echo "setup: combined build failed; building per property"
 fail=""
 for id in $IDS; do
   lc=$(echo "$id" | tr 'A-Z' 'a-z')
-  lake build Tahoe.Props.$id drv_$lc >/dev/null 2>&1 || fail="$fail $id"
+  t="Tahoe.Props.$id"; [ -f "Drv/$id.lean" ] && t="$t drv_$lc"
+  lake build $t >/dev/null 2>&1 || fail="$fail $id"
 done
 echo "setup done; properties whose Lean targets do not build:${fail:- none}"
 exit 0
